@@ -189,6 +189,11 @@ func (e *Engine) interop(fr *frame, st *State, c *ast.CallExpr, fn *types.Func, 
 	case has(full, "interop/runtime.GetTime"), has(full, "interop/runtime.GetNetwork"), has(full, "interop/runtime.GetExecutingScriptHash"),
 		has(full, "interop/runtime.GetEntryScriptHash"), has(full, "interop/runtime.GetScriptContainer"), has(full, "native/ledger.CurrentIndex"),
 		has(full, "native/neo.GetCommittee"), has(full, "interop/runtime.GetTrigger"), has(full, "native/ledger.CurrentHash"):
+		if has(full, "native/neo.GetCommittee") {
+			// the committee of a Neo network is never empty (native contract, A7)
+			v := e.uf(short, resTy)
+			st.facts = append(st.facts, sx.App(">=", lenOf(v), sx.Int(1)))
+		}
 		txconst()
 	case has(full, "native/gas.BalanceOf"), has(full, "native/neo.BalanceOf"):
 		// balances change with the transfers made so far: depend on the number of logged calls
